@@ -324,20 +324,21 @@ theorem keeps_write_fresh {h h' : Heap} (hk : Keeps h h') (n : Nat) (hn : h.leng
   rw [List.getElem?_set_ne hne]
   exact hk.2 i hi
 
-theorem mergeFieldH_keeps (h : Heap) (r : Rule) (a b : RVal) (hr : r ≠ .tagsInPlace) :
+theorem mergeFieldH_keeps (h : Heap) (r : Rule) (a b : RVal) (hr : writesInput r = false) :
     Keeps h (mergeFieldH h r a b).1 := by
   unfold mergeFieldH
   split
   · split
     · exact Keeps.refl h
     · exact keeps_write_fresh (keeps_write_fresh (keeps_alloc h _) _ (Nat.le_refl _) _) _ (Nat.le_refl _) _
-  · exact absurd rfl hr
+  · simp [writesInput] at hr
+  · simp [writesInput] at hr
   · exact keeps_write_fresh (keeps_write_fresh (keeps_alloc h _) _ (Nat.le_refl _) _) _ (Nat.le_refl _) _
   · exact Keeps.refl h
   · exact Keeps.refl h
   · exact Keeps.refl h
 
-theorem mergeHLoop_keeps (t : List FieldSpec) (ht : ∀ fs ∈ t, fs.rule ≠ .tagsInPlace) :
+theorem mergeHLoop_keeps (t : List FieldSpec) (ht : ∀ fs ∈ t, writesInput fs.rule = false) :
     ∀ (h : Heap) (a b acc : RConfig), Keeps h (mergeHLoop t h a b acc).1 := by
   induction t with
   | nil => intro h a b acc; exact Keeps.refl h
@@ -487,7 +488,7 @@ theorem mergeFieldH_concat (h : Heap) (ra rb : Option Nat)
 /-- One field: the heap view's result denotes the value view's result, and is a well-formed
 reference into the new heap. -/
 theorem mergeFieldH_deref (h : Heap) (r : Rule) (k : Kind) (a b : RVal)
-    (hc : compat r k = true) (hr : r ≠ .tagsInPlace) (ha : RefOK h k a) (hb : RefOK h k b) :
+    (hc : compat r k = true) (hr : writesInput r = false) (ha : RefOK h k a) (hb : RefOK h k b) :
     derefVal (mergeFieldH h r a b).1 k (mergeFieldH h r a b).2 = mergeVal r (derefVal h k a) (derefVal h k b) ∧
     RefOK (mergeFieldH h r a b).1 k (mergeFieldH h r a b).2 := by
   cases k with
@@ -513,7 +514,7 @@ theorem mergeFieldH_deref (h : Heap) (r : Rule) (k : Kind) (a b : RVal)
         cases r <;> simp [compat] at hc
         · exact ⟨by simp [mergeFieldH, mergeVal], by simpa [mergeFieldH] using hb⟩
         · exact mergeFieldH_tagsFresh h ra rb ha hb
-        · exact absurd rfl hr
+        · simp [writesInput] at hr
         · exact ⟨by simp [mergeFieldH, mergeVal], by simpa [mergeFieldH] using ha⟩
   | list =>
     cases a with
@@ -525,6 +526,7 @@ theorem mergeFieldH_deref (h : Heap) (r : Rule) (k : Kind) (a b : RVal)
         cases r <;> simp [compat] at hc
         · exact ⟨by simp [mergeFieldH, mergeVal], by simpa [mergeFieldH] using hb⟩
         · exact mergeFieldH_concat h ra rb ha hb
+        · simp [writesInput] at hr
         · exact ⟨by simp [mergeFieldH, mergeVal], by simpa [mergeFieldH] using ha⟩
 
 theorem mergeHLoop_cons (fs : FieldSpec) (rest : List FieldSpec) (h : Heap) (a b acc : RConfig) :
@@ -534,7 +536,7 @@ theorem mergeHLoop_cons (fs : FieldSpec) (rest : List FieldSpec) (h : Heap) (a b
 
 /-- the inputs are well-formed reference-level configurations over the heap `h0` -/
 def InputsOK (t : List FieldSpec) (h0 : Heap) (a b : RConfig) : Prop :=
-  ∀ fs ∈ t, compat fs.rule fs.kind = true ∧ fs.rule ≠ .tagsInPlace ∧
+  ∀ fs ∈ t, compat fs.rule fs.kind = true ∧ writesInput fs.rule = false ∧
     RefOK h0 fs.kind (rget a fs.name) ∧ RefOK h0 fs.kind (rget b fs.name)
 
 theorem mergeHLoop_spec (a b : RConfig) (h0 : Heap) : ∀ (t : List FieldSpec), t.Nodup → InputsOK t h0 a b →
@@ -631,5 +633,29 @@ theorem mergeH_deref (t : List FieldSpec) (hnd : (names t).Nodup) (h : Heap) (a 
   unfold deref at ha hb
   rw [hr, (hg3 fs hfs).2, ha, hb]
 
+
+/-- the fields of the configuration returned by the heap-level merge are well-formed
+references into the heap it returns -/
+theorem mergeH_result_refok (t : List FieldSpec) (hnd : (names t).Nodup) (h : Heap) (a b : RConfig)
+    (hin : InputsOK t h a b) :
+    ∀ fs ∈ t, RefOK (mergeH t h a b).1 fs.kind (rget (mergeH t h a b).2 fs.name) := by
+  obtain ⟨g, hg1, _, hg3⟩ := mergeHLoop_spec a b h t (nodup_of_names_nodup t hnd) hin h [] (Keeps.refl h)
+  intro fs hfs
+  have hr : rget (mergeHLoop t h a b []).2 fs.name = g fs := by
+    unfold rget
+    rw [hg1]
+    simp only [List.reverse_nil, List.nil_append]
+    rw [alookup_map_rspec g t hnd fs hfs]; rfl
+  unfold mergeH
+  rw [hr]
+  exact (hg3 fs hfs).1
+
+/-- what a well-formed configuration denotes does not change when the heap only grows -/
+theorem deref_keeps (t : List FieldSpec) {h h' : Heap} (hk : Keeps h h') (c : RConfig)
+    (hc : ∀ fs ∈ t, RefOK h fs.kind (rget c fs.name)) : deref t h' c = deref t h c := by
+  unfold deref
+  apply List.map_congr_left
+  intro fs hfs
+  rw [derefVal_keeps hk _ _ (hc fs hfs)]
 
 end SerfProofs.Config
